@@ -242,6 +242,61 @@ func (m *Module) curType(pkg, typ string) string {
 	return typ
 }
 
+// lockHome names a lock that lives in a small wrapper type by the one struct field that holds the
+// wrapper: type T struct{ mu sync.(RW)Mutex; … } used as the type of exactly one field S.F (by value)
+// gives every lock of T the name "S.F". A mutex wrapped together with its data keeps its identity.
+var lockHome = map[*types.Named]string{}
+
+func isSyncLockType(t types.Type) bool {
+	n, ok := types.Unalias(t).(*types.Named)
+	return ok && n.Obj().Pkg() != nil && n.Obj().Pkg().Path() == "sync" && (n.Obj().Name() == "Mutex" || n.Obj().Name() == "RWMutex")
+}
+
+func (m *Module) canonLocks() {
+	users := map[*types.Named][]string{}
+	for path, p := range m.SSA {
+		if p == nil || !strings.HasPrefix(path, modPath) {
+			continue
+		}
+		for _, mem := range p.Members {
+			t, ok := mem.(*ssa.Type)
+			if !ok {
+				continue
+			}
+			st, ok := t.Type().Underlying().(*types.Struct)
+			if !ok {
+				continue
+			}
+			owner, _ := t.Object().(*types.TypeName)
+			for i := 0; i < st.NumFields(); i++ {
+				f := st.Field(i)
+				w, ok := types.Unalias(f.Type()).(*types.Named)
+				if !ok || w.Obj().Pkg() == nil || w.Obj().Pkg().Path() != path {
+					continue
+				}
+				ws, ok := w.Underlying().(*types.Struct)
+				if !ok {
+					continue
+				}
+				locks := 0
+				for j := 0; j < ws.NumFields(); j++ {
+					if isSyncLockType(ws.Field(j).Type()) {
+						locks++
+					}
+				}
+				if locks == 1 && owner != nil {
+					users[w] = append(users[w], tname(owner)+"."+fname(f))
+				}
+			}
+		}
+	}
+	for w, us := range users {
+		if len(us) == 1 {
+			lockHome[w] = us[0]
+		}
+	}
+}
+
 // canonFields fills fieldCanon for the loaded module.
 func (m *Module) canonFields() {
 	ref := loadNames()
